@@ -331,7 +331,109 @@ def r4(F, R):
     ty = a.fut_type
     R.check(bool(re.search(r"stream::Next<'_, futures::stream::FuturesUnordered<", ty)), "awaits-single-completion", a.poll_site,
             "awaits StreamExt::next of the in-flight set", f"the in-flight await is not a single `next()`: {ty[:100]}")
-    R.floor(2)
+    # ... and ONLY a completion can complete it: the awaited future is `next()` itself, or the crate's biased select of a future
+    # that never completes (pending() / the log forwarder's endless loop) with exactly `next()` — not `next()` wrapped in a
+    # race with a timer or anything else that lets the loop turn while a serial scenario is still running
+    def targs(t):
+        i = t.find("<")
+        if i < 0 or not t.endswith(">"):
+            return t, []
+        out, depth, cur = [], 0, ""
+        for ch in t[i + 1:-1]:
+            if ch == "<":
+                depth += 1
+            elif ch == ">":
+                depth -= 1
+            if ch == "," and depth == 0:
+                out.append(cur.strip())
+                cur = ""
+            else:
+                cur += ch
+        if cur.strip():
+            out.append(cur.strip())
+        return t[:i], out
+    NEXT = r"^futures::stream::Next<'_, futures::stream::FuturesUnordered<"
+    head, args = targs(ty)
+    only = bool(re.search(NEXT, ty))
+    why = ""
+    if not only:
+        only = head == "future::SelectWithBiasedFirst" and len(args) == 2 and re.search(NEXT, args[1]) is not None
+        why = f"second arm is {args[1][:80] if len(args) > 1 else '?'}"
+        if only:
+            first = args[0]
+            never = first.startswith("futures::future::Pending<")
+            m = re.search(r"\{async block@([^ :]+):(\d+):", first)
+            if not never and m:
+                for nb in F.nested(ex):
+                    if nb.is_coroutine and nb is not ex and nb.span.startswith(f"{m.group(1)}:{m.group(2)}:"):
+                        never = not nb.return_blocks()
+            only = never
+            why = f"first arm {first[:60]} may complete"
+    R.check(only, "only-a-completion-turns-the-loop", a.poll_site, "the loop's await completes only when an in-flight scenario completes",
+            f"the scheduling loop's await can complete without a completion ({why}): the next GET can hand out scenarios beside a running serial one")
+    R.floor(3)
 
 
-RULES = [("R1", r1, None), ("R2", r2, None), ("R3", r3, None), ("R4", r4, None)]
+def r5(F, R):
+    """"This holds for first attempts and for retries alike": a retried scenario is re-enqueued under the very type it was handed
+    out with — GET's batch element -> RUN's parameter -> the retry insertion -> ENQUEUE's group key — never re-derived
+    (a custom `which_scenario` need not agree with any re-derivation)."""
+    from .c04 import role_enqueue
+    ST = "runner::basic::ScenarioType"
+    _, t_e0, enq = role_enqueue(F)
+    enq_fn = F.parent_body(enq)
+    _, _, ins = role_insert(F)
+    ex = roles.execute(F)
+    rs = roles.run_scenario(F)
+    run_fn = F.parent_body(rs)
+    cands = [b for b in F.crate_bodies() if b.is_coroutine and b is not ins and any(F.callee_body(t, b.crate) is enq_fn for _, t in b.calls())]
+    if len(cands) != 1:
+        raise Unverifiable(f"retry insertion routine (async fn calling ENQUEUE besides INSERT): {len(cands)}")
+    ri = cands[0]
+    ri_fn = F.parent_body(ri)
+
+    def st_param(fn):
+        idx = [i for i, ty in enumerate(fn.locals[1:fn.arg_count + 1]) if ty == ST]
+        if len(idx) != 1:
+            raise Unverifiable(f"{fn.short}: {len(idx)} ScenarioType parameters")
+        return idx[0]
+    def fresh_types(sl):
+        return [rv["variant"] for _, rv in sl.aggs if rv.get("adt") == ST] + \
+               [1 for _, ct in sl.calls if (op_fn(ct["func"]) or {}).get("self", "").lstrip("&") in ("Which", "F") and re.search(r"ops::Fn", (op_fn(ct["func"]) or {}).get("trait", ""))]
+    # (d) the retry insertion hands its own type parameter to ENQUEUE
+    if not [ty for ty in ri_fn.locals[1:ri_fn.arg_count + 1] if ty == ST]:
+        R.violation("retry-keeps-type/insertion", ri, "the retry insertion routine does not receive the scenario's type at all: it re-derives it (a Serial scenario's retry can run concurrently)")
+        R.floor(1)
+        return
+    p_ri = st_param(ri_fn)
+    calls = [(s, t) for s, t in ri.calls() if F.callee_body(t, ri.crate) is enq_fn]
+    sl = A.slice_back(ri, calls[0][1]["args"][1:], stop_calls=[r"Future::poll$"])
+    R.check(p_ri in sl.upvars and not fresh_types(sl), "retry-keeps-type/insertion", calls[0][0], "ENQUEUE's key = the routine's ScenarioType parameter",
+            "the retry insertion does not enqueue under the type it was given (it re-derives or fixes the type): a Serial scenario's retry can run concurrently")
+    # (c) RUN hands its own type parameter to the retry insertion
+    p_run = st_param(run_fn)
+    rc = [(nb, s, t) for nb in F.nested(rs) for s, t in nb.calls() if F.callee_body(t, nb.crate) is ri_fn]
+    ok_c = len(rc) == 1
+    if ok_c:
+        nb, s, t = rc[0]
+        a = t["args"][p_ri]
+        pl = op_place(a)
+        ok_c = False
+        if pl is not None:
+            body2, cp = A.canon_place_deep(F, nb, pl)
+            fs = [e for e in cp["p"] if isinstance(e, dict) and e.get("o", "").startswith("{upvar}")]
+            ok_c = (body2 is rs and cp["l"] == 1 and len(fs) == 1 and fs[0]["f"] == p_run) or (body2 is run_fn and cp["l"] == p_run + 1 and not cp["p"])
+    R.check(ok_c, "retry-keeps-type/attempt", rc[0][1] if rc else rs, "re-insertion with the attempt's own ScenarioType", "the attempt re-inserts its retry under another type than the one it was dispatched with")
+    # (b) EXECUTE hands the batch element's type to RUN
+    xc = [(s, t) for s, t in ex.calls() if F.callee_body(t, ex.crate) is run_fn]
+    ok_b = len(xc) == 1
+    if ok_b:
+        s, t = xc[0]
+        aw_get, get = role_get(F)
+        sl = A.slice_back(ex, [t["args"][p_run]], stop_calls=[r"Future::poll$"])
+        ok_b = aw_get.poll_site in sl.sites and not fresh_types(sl)
+    R.check(ok_b, "retry-keeps-type/dispatch", xc[0][0] if xc else ex, "RUN(.., ty of the batch element, ..)", "EXECUTE does not dispatch a scenario with the type GET handed it out under")
+    R.floor(3)
+
+
+RULES = [("R1", r1, None), ("R2", r2, None), ("R3", r3, None), ("R4", r4, None), ("R5", r5, None)]
